@@ -68,6 +68,50 @@ class Interp:
             return z3.BoolVal(False)
         raise HarnessError('truth value of a non-scalar')
 
+    def _comp(self, gens, k, env, guard, emit):
+        """Nested comprehension generators over guarded lists: calls emit(env, guard) once per element combination."""
+        if k == len(gens):
+            emit(env, guard)
+            return
+        gen = gens[k]
+        if gen.is_async:
+            raise HarnessError('async comprehension')
+        seq = self.ev(gen.iter, env, guard)
+        if not isinstance(seq, SymList):
+            raise HarnessError(f'cannot iterate {ast.unparse(gen.iter)}')
+        for g, el in seq.items:
+            e2 = dict(env)
+            if isinstance(gen.target, ast.Name):
+                e2[gen.target.id] = el
+            elif isinstance(gen.target, ast.Tuple) and all(isinstance(t, ast.Name) for t in gen.target.elts):
+                for t, v in zip(gen.target.elts, el):
+                    e2[t.id] = v
+            else:
+                raise HarnessError('untranslatable comprehension target')
+            g2 = z3.And(guard, g) if not z3.is_true(g) else guard
+            for cond in gen.ifs:
+                g2 = z3.And(g2, self._truth(self.ev(cond, e2, g2)))
+            self._comp(gens, k + 1, e2, g2, emit)
+
+    @staticmethod
+    def _same(a, b):
+        """Equality of two list elements as a z3 Bool."""
+        if isinstance(a, str) and isinstance(b, str):
+            return z3.BoolVal(a == b)
+        if z3.is_bv(a) and z3.is_bv(b):
+            return a == b
+        if (z3.is_bool(a) or isinstance(a, bool)) and (z3.is_bool(b) or isinstance(b, bool)):
+            return a == b
+        raise HarnessError('comparison of list elements of different kinds')
+
+    def _dedup(self, lst):
+        """set(lst): an element stays iff no earlier present element equals it (order of first occurrence)."""
+        out = SymList()
+        for i, (g, el) in enumerate(lst.items):
+            dup = [z3.And(gj, self._same(ej, el)) for gj, ej in lst.items[:i]]
+            out.items.append((z3.And(g, z3.Not(z3.Or(*dup))) if dup else g, el))
+        return out
+
     def ev(self, n, env, guard):
         if isinstance(n, ast.Constant):
             if n.value is None or isinstance(n.value, bool):
@@ -118,6 +162,13 @@ class Interp:
             a = self.ev(n.left, env, guard)
             b = self.ev(n.comparators[0], env, guard)
             op = n.ops[0]
+            if isinstance(op, (ast.In, ast.NotIn)):
+                if isinstance(b, SymMapping):
+                    b = SymList([(z3.BoolVal(True), nm) for nm in b.names])
+                if not isinstance(b, SymList):
+                    raise HarnessError(f'untranslatable membership test {ast.unparse(n)}')
+                r = z3.Or(z3.BoolVal(False), *[z3.And(g, self._same(el, a)) for g, el in b.items])
+                return r if isinstance(op, ast.In) else z3.Not(r)
             if isinstance(op, (ast.Is, ast.IsNot)):
                 if b is None:
                     return (a is None) == isinstance(op, ast.Is)
@@ -136,6 +187,10 @@ class Interp:
                 if isinstance(op, ast.NotEq):
                     return a != b
             raise HarnessError(f'untranslatable comparison {ast.unparse(n)}')
+        if isinstance(n, (ast.ListComp, ast.GeneratorExp, ast.SetComp)):
+            out = SymList()
+            self._comp(n.generators, 0, dict(env), guard, lambda e2, g2: out.items.append((g2, self.ev(n.elt, e2, g2))))
+            return self._dedup(out) if isinstance(n, ast.SetComp) else out
         if isinstance(n, ast.BoolOp):
             vals = [self._truth(self.ev(v, env, guard)) for v in n.values]
             return (z3.And if isinstance(n.op, ast.And) else z3.Or)(*vals)
@@ -168,6 +223,41 @@ class Interp:
                 return v != bv(0) if z3.is_bv(v) else bool(v)
             if isinstance(f, ast.Name) and f.id == 'str':
                 return '<str>'
+            if isinstance(f, ast.Name) and f.id in ('sum', 'any', 'all', 'len', 'list', 'tuple', 'set', 'frozenset', 'sorted') \
+                    and 1 <= len(n.args) <= 2 and not n.keywords:
+                lst = self.ev(n.args[0], env, guard)
+                if isinstance(lst, SymMapping):
+                    lst = SymList([(z3.BoolVal(True), nm) for nm in lst.names])
+                if isinstance(lst, SymList):
+                    if f.id in ('list', 'tuple') and len(n.args) == 1:
+                        return SymList(lst.items)
+                    if f.id in ('set', 'frozenset') and len(n.args) == 1:
+                        return self._dedup(lst)
+                    if f.id == 'sorted' and len(n.args) == 1:
+                        if all(isinstance(el, str) for _, el in lst.items):
+                            return SymList(sorted(lst.items, key=lambda it: it[1]))
+                        raise HarnessError('sorted() over symbolic integers is not supported')
+                    if f.id == 'len' and len(n.args) == 1:
+                        r = bv(0)
+                        for g, _ in lst.items:
+                            r = r + z3.If(g, bv(1), bv(0))
+                        return r
+                    if f.id in ('any', 'all') and len(n.args) == 1:
+                        vals = [(g, self._truth(el)) for g, el in lst.items]
+                        if f.id == 'any':
+                            return z3.Or(z3.BoolVal(False), *[z3.And(g, v) for g, v in vals])
+                        return z3.And(z3.BoolVal(True), *[z3.Implies(g, v) for g, v in vals])
+                    if f.id == 'sum':
+                        start = self.ev(n.args[1], env, guard) if len(n.args) == 2 else bv(0)
+                        if not z3.is_bv(start) or not all(z3.is_bv(el) for _, el in lst.items):
+                            raise HarnessError(f'sum of non-integers in {ast.unparse(n)}')
+                        # Python ints do not wrap: add in 80 bits and require the total to fit the signed 64-bit model
+                        wide = z3.SignExt(16, start)
+                        for g, el in lst.items:
+                            wide = wide + z3.If(g, z3.SignExt(16, el), z3.BitVecVal(0, W + 16))
+                        r = z3.Extract(W - 1, 0, wide)
+                        self.no_wrap.append((guard, z3.SignExt(16, r) == wide, f'{ast.unparse(n)} exceeds 64 bits'))
+                        return r
             if isinstance(f, ast.Attribute) and f.attr == 'bit_length' and not n.args:
                 v = self.ev(f.value, env, guard)
                 if not z3.is_bv(v):
